@@ -106,11 +106,13 @@ def _run_case(case):
     # idempotence: repeat the last document
     probes.install()
     probes.counters['prefilter_drops'] = 0
+    probes.counters['partial_list_prune'] = 0
     _build(texts)
     rep = _build(texts + [texts[-1]])
     if not same(base, rep):
-        # open finding: attributed only when the list pre-filter (root cause) dropped nodes of a newer document in these builds
-        fid = 'list-prefilter-partial-survivor' if probes.counters['prefilter_drops'] else None
+        # open finding: attributed only when, in these builds, a list merge left partial survivors (root cause): the list pre-filter
+        # dropped nodes of the newer value, or the pruning of an older list removed some but not all of its elements
+        fid = 'list-prefilter-partial-survivor' if (probes.counters['prefilter_drops'] or probes.counters['partial_list_prune']) else None
         raise Violation(f'C15[idempotence]: repeating the last document changes the result from {base!r} to {rep!r}{src}', finding=fid)
     # empty-neutral
     for pos in range(len(texts) + 1):
@@ -152,6 +154,8 @@ def _run_case(case):
         labels.add('permuted')
     if probes.counters['prefilter_drops']:
         labels.add('list-prefilter-dropped-nodes')
+    if probes.counters['partial_list_prune']:
+        labels.add('older-list-partly-pruned')
     return Outcome(nontrivial=nontrivial, labels=sorted(labels))
 
 
